@@ -253,7 +253,7 @@ fn faults_for(check: &str) -> (&'static [F], &'static [F]) {
         F::LNoSig, F::LForged, F::LCorrupt, F::LEdit, F::LEdit, F::LSigDup, F::CallerEmpty, F::CallerSuperset, F::CallerDisjoint, F::CallerAlias, F::CallerJsonAlias, F::UnknownSchemeOwner,
     ];
     const BYTES: &[F] = &[F::ByteFlip, F::ByteTrunc, F::ByteOverwrite, F::DupFile, F::SigDup, F::SigShuf];
-    const DELEG: &[F] = &[F::SubWrongSigner, F::SubExpired, F::SubInner, F::SubInner, F::WrongDir, F::ATamper, F::SharedSub, F::WrongStep, F::ExtraStranger];
+    const DELEG: &[F] = &[F::SubWrongSigner, F::SubExpired, F::SubInner, F::SubInner, F::WrongDir, F::ATamper, F::SharedSub, F::WrongStep, F::ExtraStranger, F::SubInspectionFails];
     const DISSENT: &[F] = &[F::Dissent, F::Dissent, F::Dissent, F::SharedSub];
     const C14F: &[F] = &[F::ByteFlip, F::ByteTrunc, F::ByteOverwrite, F::Garbage, F::IsDir, F::Dangling, F::DupFile, F::OddFileName, F::LEdit, F::LinkEdit];
     match check {
@@ -278,6 +278,8 @@ fn opts_for(check: &str, tier: Tier, r: &mut Rng) -> GenOpts {
             o.delegation_pct = 55;
             o.max_depth = if r.chance(1, 3) { 2 } else { 1 };
             o.max_steps = 3;
+            // real inspection processes in some of the worlds (they cost milliseconds each)
+            o.inspections = r.chance(1, 8);
         }
         "C13" => {
             o.delegation_pct = 8;
